@@ -1004,7 +1004,9 @@ def c05_interleave(w, ev, slot):
                    'accessors): %s' % (r['kind'], r['cur'], d))
         r['cur'] += 1
     for r in readers:
-        r['gen'].close()
+        close = getattr(r['gen'], 'close', None)     # iter() returns a zip
+        if close:
+            close()
     w.stats['reader.interleaved_steps'] += steps
     w.expect_unchanged(slot, 'reader.source_changed', 'interleaved readers')
     return 'c05_interleave:ok'
